@@ -109,6 +109,8 @@ pub fn ops() -> Vec<(&'static str, fn(&Fixture) -> String)> {
         ("set_comment_a", |f| { f.h["a"].set_comment(Some("c".into())); "ok".into() }),
         ("set_attr_a", |f| rc(f.h["a"].set_attribute_string(AttributeName::Uuid, "u1"))),
         ("set_ref_t", |f| rc(f.h["ref"].set_reference_target(&f.h["t"]))),
+        ("set_text_ref", |f| rc(f.h["ref"].set_character_data("/a/t"))),
+        ("remove_attr_ref", |f| { f.h["ref"].remove_attribute(AttributeName::Dest); "ok".into() }),
         ("create_file", |f| rc(f.model.create_file("f3", AutosarVersion::Autosar_00050))),
         ("remove_file2", |f| { f.model.remove_file(&f.file2); "ok".into() }),
         ("load_doc2", |f| rc(f.model.load_buffer(DOC2.as_bytes(), "l2", true))),
